@@ -12,6 +12,8 @@
 From Coq Require Import List NArith Bool.
 From V.C12 Require Import Start StartProofs.
 From V.gen Require C12Tables.
+From V.C04 Require Model Proofs.
+From V.Link Require C04_C12.
 Import ListNotations.
 Open Scope N_scope.
 
@@ -148,3 +150,44 @@ Theorem C12_tables_in_sync :
   1 <= C12Tables.C12_NEGOTIATION_TIMEOUT_SECS.
 Proof. exact tables_in_sync. Qed.
 Print Assumptions C12_tables_in_sync.
+
+(* ---- the carrier hypothesis of C12_start_end_to_end, discharged by C04 (coq/Link/C04_C12.v) ----
+   Interpret the frame labels as byte strings by ANY injective `enc`. What A wrote on its outbound
+   substream goes on the wire as C04's frames of the substream's codec c (`wire_of`); ANY prefix of those
+   bytes (cut at any byte offset) is read at B by C04's incremental reader under ANY script of
+   fragmentation, stalls, end of stream and read errors, polled any number of times; what B's inbound
+   substream sees is the frames that reader returns. Then the conclusion of C12_start_end_to_end holds —
+   the hypothesis `prefix (s_hist (t_in tb)) (s_out (t_out ta))` is no longer assumed but derived from
+   C04_reader_roundtrip. Left as a hypothesis: Fits (every frame A wrote is within the codec's maximum,
+   which start_send's size check guarantees: C12/Model.v). *)
+Theorem C12_start_carrier_prefix_linked :
+  forall (enc : frame -> list N), (forall a b, enc a = enc b -> a = b) ->
+  forall (c : V.C04.Model.codec) (written received : list frame) (cut : nat)
+         (script : list V.C04.Model.rdev) (polls : nat) outs st' wire' script',
+    V.C04.Proofs.Fits c (map enc written) ->
+    V.C04.Model.run_reader polls c (V.C04.Model.init_r c)
+      (firstn cut (V.C04.Model.wire_of c (map enc written))) script = (outs, st', wire', script') ->
+    map enc received = V.C04.Model.frames_of outs ->
+    prefix received written.
+Proof. exact V.Link.C04_C12.carrier_prefix. Qed.
+Print Assumptions C12_start_carrier_prefix_linked.
+
+Theorem C12_start_end_to_end_linked :
+  forall (enc : frame -> list N), (forall a b, enc a = enc b -> a = b) ->
+  forall (c : V.C04.Model.codec) (autoa autob : bool) (la lb : list op) (ta tb : task)
+         (cut : nat) (script : list V.C04.Model.rdev) (polls : nat) outs st' wire' script',
+    In ta (tasks (final true autoa la)) -> In tb (tasks (final true autob lb)) ->
+    V.C04.Proofs.Fits c (map enc (s_out (t_out ta))) ->
+    V.C04.Model.run_reader polls c (V.C04.Model.init_r c)
+      (firstn cut (V.C04.Model.wire_of c (map enc (s_out (t_out ta))))) script = (outs, st', wire', script') ->
+    map enc (s_hist (t_in tb)) = V.C04.Model.frames_of outs ->
+    exists q, s_out (t_out ta) = LOCAL_HS :: q /\ s_hs (t_in tb) = [LOCAL_HS] /\ prefix (t_fwd tb) q.
+Proof. exact V.Link.C04_C12.end_to_end_over_C04. Qed.
+Print Assumptions C12_start_end_to_end_linked.
+
+(* the hypotheses on `enc` are satisfiable (EMPTY is the empty byte string) *)
+Theorem C12_start_enc_satisfiable :
+  (forall a b, V.Link.C04_C12.enc_example a = V.Link.C04_C12.enc_example b -> a = b) /\
+  V.Link.C04_C12.enc_example EMPTY = [].
+Proof. split; [exact V.Link.C04_C12.enc_example_inj | reflexivity]. Qed.
+Print Assumptions C12_start_enc_satisfiable.
